@@ -60,6 +60,8 @@ def case_strategy():
                                       # elsewhere the library iterates the value, and identities are dictionaries of lists)
                                       'valrep': st.sampled_from(['str', 'str', 'str', 'str', 'bytes', 'int']),
                                       # an attribute query may list the attributes it wants (names drawn from the identity and from outside it)
+                                      # third-party shaped metadata: a second SPSSODescriptor (other protocol support / endpoints) without attribute declarations, before or after
+                                      'second_descriptor': st.sampled_from([None, None, None, 'before', 'after']),
                                       'query_attrs': st.one_of(st.none(), st.lists(st.one_of(st.sampled_from(keys), st.sampled_from(NAMES)), min_size=1, max_size=4, unique=True)),
                                       'sp_cats': st.lists(st.sampled_from(sorted(CATS)), max_size=3, unique=True),
                                       'call': st.sampled_from(['authn', 'authn', 'attribute'])})
@@ -88,7 +90,17 @@ def sp_metadata(case, entityid=None, acs=None):
         ext = ('<mdattr:EntityAttributes xmlns:mdattr="urn:oasis:names:tc:SAML:metadata:attribute"><saml:Attribute xmlns:saml="urn:oasis:names:tc:SAML:2.0:assertion" '
                'Name="http://macedir.org/entity-category" NameFormat="%s">%s</saml:Attribute></mdattr:EntityAttributes>') % (
             URI, ''.join('<saml:AttributeValue>%s</saml:AttributeValue>' % CATS[c] for c in case['sp_cats']))
-    md = build.entity_xml({'entityid': entityid or SP, 'extensions': ext, 'sp': {'keys': [('signing', 0)], 'acs': [(world.POST, acs or ACS, 0, True)], 'attribute_consuming': services}})
+    main = {'keys': [('signing', 0)], 'acs': [(world.POST, acs or ACS, 0, True)], 'attribute_consuming': services}
+    bare = {'keys': [('signing', 0)], 'acs': [(world.POST, (acs or ACS) + '/legacy', 1, False)], 'protocols': 'urn:oasis:names:tc:SAML:2.0:protocol urn:oasis:names:tc:SAML:1.1:protocol'}
+    second = case.get('second_descriptor')
+    spec = {'entityid': entityid or SP, 'extensions': ext}
+    if second == 'before':
+        spec.update(sp=bare, more_sp=[main])
+    elif second == 'after':
+        spec.update(sp=main, more_sp=[bare])
+    else:
+        spec['sp'] = main
+    md = build.entity_xml(spec)
     return md, requested
 
 
